@@ -14,7 +14,7 @@ func init() {
 			"from PCG(seed, property, index); each record is captured at a recording writer and decoded by an independent strict JSON walker; " +
 			"non-trivial = record decoded and matched AND (has attributes or a non-plain message); distinct = by payload bytes",
 		Assumptions: []string{"encoding/json's scanner and decoder (go1.23.5) as the reference for RFC 8259 validity", "user marshallers / value stringers are outside the domain"},
-		Floors:      map[string]int64{"records_decoded": 100},
+		Floors:      map[string]int64{"records_decoded": 100, "handler_records_decoded": 1000, "records_with_one_group_object_used_twice": 100},
 		Jobs: func(tier string, seed int64) []Job {
 			n := pick(tier, 40000, 1200000)
 			js := chunk("main", "prod", n, pick(tier, 2500, 37500), Job{Timeout: 30 * time.Minute})
@@ -33,9 +33,11 @@ func init() {
 		Level: "exploration",
 		Rule: "cases = generated logfmt records (production process mode): logger name, any-bytes message, severity, caller flag, 0-24 attributes with legal unique logfmt keys " +
 			"(random leading letter so that groups sort first/middle/last) and values of every supported kind incl. []byte, groups nested <= 3; each payload is tokenised by an independent " +
-			"logfmt tokenizer (strconv.Unquote for quoted values) and every pair compared with what was logged; non-trivial = decoded and matched AND (has attributes or non-plain message); distinct = by payload bytes",
+			"logfmt tokenizer (strconv.Unquote for quoted values) and every pair compared with what was logged; non-trivial = decoded and matched AND (has attributes or non-plain message); distinct = by payload bytes. " +
+			"Sub-workload handler: logfmt records through the library's log/slog handler, derived in 0-15+ WithGroup/WithAttrs steps, the record through the first of 2-4 siblings; expected tree by log/slog's rules. " +
+			"Follow-ups in main: parent and child binding one key; one group object used twice in a record",
 		Assumptions: []string{"strconv.Unquote (go1.23.5) decodes what a logfmt reader decodes", "production process mode (the multi-line error dump of testing mode is outside the statement)"},
-		Floors:      map[string]int64{"records_decoded": 100},
+		Floors:      map[string]int64{"records_decoded": 100, "handler_records_decoded": 1000, "records_with_one_group_object_used_twice": 100},
 		Jobs: func(tier string, seed int64) []Job {
 			n := pick(tier, 40000, 1200000)
 			js := chunk("main", "prod", n, pick(tier, 2500, 37500), Job{Timeout: 30 * time.Minute})
@@ -44,6 +46,8 @@ func init() {
 			for i, v := range []string{"1", "true", "on"} {
 				js = append(js, Job{Sub: "main", Mode: "prod", From: 1000 * i, To: 1000*i + pick(tier, 1000, 20000), Env: []string{"DEBUG=" + v}, Timeout: 30 * time.Minute})
 			}
+			// records that come in through the library's log/slog handler (derived step by step, siblings)
+			js = append(js, chunk("handler", "prod", pick(tier, 8000, 400000), pick(tier, 2000, 25000), Job{Timeout: 30 * time.Minute})...)
 			return js
 		},
 	})
